@@ -45,11 +45,11 @@ func init() {
 			"Eval.Run returns within 60 polls after cancellation, with a non-nil error if the script cannot end by itself or the context was cancelled before the call; a later evaluation with a live context returns its normal value. " +
 			"states = distinct scheduler states (pending operation of every thread, lock owners, atomic values, pool sizes) per exploration unit, summed; transitions = executed scheduling points, traces = executions; every execution is replayed from its choice prefix and compared event by event with the execution it branches from (divergence = infrastructure error); " +
 			"non-trivial = executions in which the abort/cancel landed between the first and the last operation of the run it targets",
-		Run:       run09,
-		Shards:    16,
-		MarkCases: true,
+		Run:            run09,
+		Shards:         16,
+		MarkCases:      true,
 		ThoroughBudget: 90 * time.Minute,
-		WorkerEnv: []string{"GOMAXPROCS=1"},
+		WorkerEnv:      []string{"GOMAXPROCS=1"},
 		Assumptions: []string{
 			"sequential consistency (Go atomics are SC; unsynchronised sharing is C08's race pass)",
 			"at most 3 threads, at most B preemptions; fairness: a thread yields after 12 consecutive polls",
@@ -92,9 +92,9 @@ type sctx struct {
 func newCtx() *sctx { return &sctx{done: make(chan struct{})} }
 
 func (c *sctx) Deadline() (t0 time.Time, ok bool) { return }
-func (c *sctx) Done() <-chan struct{}           { return c.done }
-func (c *sctx) Err() error                      { return c.err }
-func (c *sctx) Value(any) any                   { return nil }
+func (c *sctx) Done() <-chan struct{}             { return c.done }
+func (c *sctx) Err() error                        { return c.err }
+func (c *sctx) Value(any) any                     { return nil }
 func (c *sctx) cancel() {
 	if c.err == nil {
 		c.err = context.Canceled
@@ -105,12 +105,13 @@ func (c *sctx) cancel() {
 // ---- scenarios --------------------------------------------------------------------
 
 type scenario struct {
-	key     string
-	desc    string
-	nonterm []bool  // per run of the main thread: the script cannot end by itself
-	want    []int64 // per run: value of a normal return
-	body    func()
-	eval    bool // judged with the Eval rules
+	key       string
+	desc      string
+	nonterm   []bool  // per run of the main thread: the script cannot end by itself
+	want      []int64 // per run: value of a normal return
+	body      func()
+	eval      bool // judged with the Eval rules
+	cancelRun int  // eval: index of the evaluation that runs under the context that is cancelled
 }
 
 func compile(src string) *ugo.Bytecode {
@@ -184,8 +185,8 @@ func scenarios(thorough bool) []*scenario {
 			s, n := s, n
 			bc := compile(s)
 			out = append(out, &scenario{
-				key:  fmt.Sprintf("root script=%s aborts=%d", scriptName(s), n),
-				desc: "T1 vm.Run(script) || T2 vm.Abort() x n",
+				key:     fmt.Sprintf("root script=%s aborts=%d", scriptName(s), n),
+				desc:    "T1 vm.Run(script) || T2 vm.Abort() x n",
 				nonterm: []bool{s == spin}, want: []int64{wantOf(s)},
 				body: func() {
 					vm := ugo.NewVM(bc)
@@ -198,8 +199,8 @@ func scenarios(thorough bool) []*scenario {
 	{
 		bc := compile(spin)
 		out = append(out, &scenario{
-			key:  "root script=spin two aborting threads",
-			desc: "T1 vm.Run(for{}) || T2 vm.Abort() || T3 vm.Abort()",
+			key:     "root script=spin two aborting threads",
+			desc:    "T1 vm.Run(for{}) || T2 vm.Abort() || T3 vm.Abort()",
 			nonterm: []bool{true}, want: []int64{-1},
 			body: func() {
 				vm := ugo.NewVM(bc)
@@ -218,8 +219,8 @@ func scenarios(thorough bool) []*scenario {
 			}
 			bc1, bc2 := compile(p[0]), compile(p[1])
 			out = append(out, &scenario{
-				key:  fmt.Sprintf("reuse scripts=%s,%s aborts=%d", scriptName(p[0]), scriptName(p[1]), n),
-				desc: "T1 vm.Run(s1); vm.SetBytecode(s2).Run() || T2 vm.Abort() x n",
+				key:     fmt.Sprintf("reuse scripts=%s,%s aborts=%d", scriptName(p[0]), scriptName(p[1]), n),
+				desc:    "T1 vm.Run(s1); vm.SetBytecode(s2).Run() || T2 vm.Abort() x n",
 				nonterm: []bool{p[0] == spin, p[1] == spin}, want: []int64{wantOf(p[0]), wantOf(p[1])},
 				body: func() {
 					vm := ugo.NewVM(bc1)
@@ -237,8 +238,8 @@ func scenarios(thorough bool) []*scenario {
 	{
 		bc := compile(fin)
 		out = append(out, &scenario{
-			key:  "clear script=loop3",
-			desc: "T1 vm.Run(s); vm.Clear(); vm.SetBytecode(s).Run() || T2 vm.Abort()",
+			key:     "clear script=loop3",
+			desc:    "T1 vm.Run(s); vm.Clear(); vm.SetBytecode(s).Run() || T2 vm.Abort()",
 			nonterm: []bool{false, false}, want: []int64{3, 3},
 			body: func() {
 				vm := ugo.NewVM(bc)
@@ -284,8 +285,8 @@ func scenarios(thorough bool) []*scenario {
 		bc := compile(src)
 		nonterm := cv.fn == "for {}" || cv.after == "for {}" || cv.fn == second
 		out = append(out, &scenario{
-			key:  fmt.Sprintf("child fn=%q pooled=%v calls=%d after=%q", cv.fn, cv.pooled, cv.calls, cv.after),
-			desc: "T1 vm.Run(script calling a Go callback that runs a script function through Invoker) || T2 vm.Abort()",
+			key:     fmt.Sprintf("child fn=%q pooled=%v calls=%d after=%q", cv.fn, cv.pooled, cv.calls, cv.after),
+			desc:    "T1 vm.Run(script calling a Go callback that runs a script function through Invoker) || T2 vm.Abort()",
 			nonterm: []bool{nonterm}, want: []int64{7},
 			body: func() {
 				vm := ugo.NewVM(bc)
@@ -315,8 +316,8 @@ func scenarios(thorough bool) []*scenario {
 		src := "param cb\nf := func() { return 1 }\ng := func() { for {} }\ncb(f)\ncb(g)\nreturn 7"
 		bc := compile(src)
 		out = append(out, &scenario{
-			key:  "child two callbacks, second spins, pooled",
-			desc: "T1 vm.Run(cb(f); cb(g)) with pooled child VMs || T2 vm.Abort()",
+			key:     "child two callbacks, second spins, pooled",
+			desc:    "T1 vm.Run(cb(f); cb(g)) with pooled child VMs || T2 vm.Abort()",
 			nonterm: []bool{true}, want: []int64{7},
 			body: func() {
 				vm := ugo.NewVM(bc)
@@ -340,8 +341,8 @@ func scenarios(thorough bool) []*scenario {
 		bc1 := compile(fmt.Sprintf("param cb\nf := func() { %s }\ncb(f)\nreturn 7", fn1))
 		bc2 := compile("param cb\nf := func() { return 1 }\ncb(f)\nreturn 7")
 		out = append(out, &scenario{
-			key:  fmt.Sprintf("reuse-child first fn=%q, pooled", fn1),
-			desc: "T1 vm.Run(cb(f1)); vm.SetBytecode(s2).Run(cb(f2)) with pooled child VMs || T2 vm.Abort()",
+			key:     fmt.Sprintf("reuse-child first fn=%q, pooled", fn1),
+			desc:    "T1 vm.Run(cb(f1)); vm.SetBytecode(s2).Run(cb(f2)) with pooled child VMs || T2 vm.Abort()",
 			nonterm: []bool{fn1 == "for {}", false}, want: []int64{7, 7},
 			body: func() {
 				vm := ugo.NewVM(bc1)
@@ -379,8 +380,8 @@ func scenarios(thorough bool) []*scenario {
 			panic(fmt.Sprintf("c09: %s: %v", sv.key, err))
 		}
 		out = append(out, &scenario{
-			key:  sv.key,
-			desc: "T1 vm.Run(script using the stdlib builtin) || T2 vm.Abort()",
+			key:     sv.key,
+			desc:    "T1 vm.Run(script using the stdlib builtin) || T2 vm.Abort()",
 			nonterm: []bool{true}, want: []int64{7},
 			body: func() {
 				vm := ugo.NewVM(bc)
@@ -418,8 +419,8 @@ func scenarios(thorough bool) []*scenario {
 			continue
 		}
 		out = append(out, &scenario{
-			key:  fmt.Sprintf("eval scripts=%s optimizer=%v", strings.Join(names, ","), ev.opt),
-			desc: "T1 Eval.Run(ctx1, s1) [; Eval.Run(ctx2 never cancelled, s2)] || T2 cancel(ctx1)",
+			key:     fmt.Sprintf("eval scripts=%s optimizer=%v", strings.Join(names, ","), ev.opt),
+			desc:    "T1 Eval.Run(ctx1, s1) [; Eval.Run(ctx2 never cancelled, s2)] || T2 cancel(ctx1)",
 			nonterm: nonterm, want: want, eval: true,
 			body: func() {
 				opts := ugo.CompilerOptions{NoOptimize: !ev.opt}
@@ -430,6 +431,40 @@ func scenarios(thorough bool) []*scenario {
 						var ctx context.Context = ctx1
 						if k == 1 {
 							ctx = ctx2
+						}
+						vsched.Note("run-call", int64(k))
+						ret, _, err := e.Run(ctx, []byte(s))
+						if err == nil {
+							vsched.Note("run-val", intOf(ret))
+						}
+						vsched.Note("run-ret", errCode(err))
+					}
+				})
+				vsched.Go("abort", func() {
+					vsched.Note("abort-call", 0)
+					ctx1.cancel()
+					vsched.Note("abort-ret", 0)
+				})
+			},
+		})
+	}
+	// an evaluation under a live context that declares variables, then the cancelled evaluation, then one that uses
+	// those variables: the session state survives a cancellation at any moment (also before the run started)
+	for _, mid := range []string{spin, fin2} {
+		mid := mid
+		scripts := []string{"a := 5; c := 2", mid, "return a + c"}
+		out = append(out, &scenario{
+			key:     fmt.Sprintf("eval three evaluations, the second (%s) is cancelled", scriptName(mid)),
+			desc:    "T1 Eval.Run(live, `a := 5; c := 2`); Eval.Run(ctx1, s); Eval.Run(live, `return a + c`) || T2 cancel(ctx1)",
+			nonterm: []bool{false, mid == spin, false}, want: []int64{-1, 7, 7}, eval: true, cancelRun: 1,
+			body: func() {
+				e := ugo.NewEval(ugo.CompilerOptions{NoOptimize: true}, nil)
+				ctx1, live := newCtx(), newCtx()
+				vsched.Go("run", func() {
+					for k, s := range scripts {
+						var ctx context.Context = live
+						if k == 1 {
+							ctx = ctx1
 						}
 						vsched.Note("run-call", int64(k))
 						ret, _, err := e.Run(ctx, []byte(s))
@@ -643,7 +678,7 @@ func (s *scenario) judge(e *vsched.Exec) (class, what, outcome string, nontrivia
 		var eff, issued []abortRec
 		for _, ab := range a.aborts {
 			if s.eval {
-				if k == 0 {
+				if k == s.cancelRun {
 					eff = append(eff, ab)
 					issued = append(issued, ab)
 				}
@@ -697,7 +732,7 @@ func (s *scenario) judge(e *vsched.Exec) (class, what, outcome string, nontrivia
 			if r.val != s.want[k] {
 				return "wrong-value", fmt.Sprintf("run %d returned %d, want %d", k+1, r.val, s.want[k]), "", nontrivial
 			}
-			if s.eval && k == 0 {
+			if s.eval && k == s.cancelRun {
 				for _, ab := range a.aborts {
 					if ab.ret >= 0 && ab.ret < r.call {
 						return "cancel-ignored", "Eval.Run returned no error although the context was cancelled before the call", "", nontrivial
